@@ -207,8 +207,8 @@ def static_check(pid, tier, deps_artefacts=None, props_module=None, props_path=N
 _built = {}
 
 
-def build_rs(features=()):
-    key = ("rs",) + tuple(features)
+def build_rs(features=(), profile=None):
+    key = ("rs", profile) + tuple(features)
     if key in _built:
         return _built[key]
     lock = os.path.join(RS_DIR, "Cargo.lock")
@@ -216,11 +216,11 @@ def build_rs(features=()):
         import shutil
         shutil.copy(os.path.join(REPO, "Cargo.lock"), lock)
     target = os.path.join(RS_DIR, "target" if not features else "target-" + "-".join(features))
-    cmd = ["cargo", "build", "--release", "--offline", "--target-dir", target]
+    cmd = ["cargo", "build", "--offline", "--target-dir", target] + (["--profile", profile] if profile else ["--release"])
     if features:
         cmd += ["--features", ",".join(features)]
     rc, out = run(cmd, cwd=RS_DIR, timeout=3600)
-    exe = os.path.join(target, "release", "b3-verif-harness")
+    exe = os.path.join(target, profile or "release", "b3-verif-harness")
     _built[key] = (rc == 0, exe, out)
     return _built[key]
 
